@@ -4,6 +4,7 @@ CONSTANTS
   Templates <- TplC18h
   Bundles <- TlsBundles
   Ctxs <- WideTight
+  Reqs <- FullReq
   Tries <- One
   Hists <- AllHists
   BackoffCfgs <- NoBoCfgs
